@@ -38,7 +38,7 @@ MIN_HITS = {
         'mon:mean': 1500, 'mon:zero': 100, 'mon:nan': 1500, 'mon:hull': 500, 'mon:order': 500, 'mon:generator': 900,
         'mon:donation': 5000, 'mon:readonly': 300, 'mon:structure': 1500, 'mon:sum': 500, 'mon:aggstate': 300,
         'mon:clipnorm': 300, 'mon:clipdir': 300, 'mon:clipident': 100, 'jax-leaves': 100, 'np-leaves': 50,
-        'single-client': 20, 'clip-below': 50, 'clip-zero-tree': 5, 'hook:tree_mean': 2, 'class:many-trees': 15,
+        'single-client': 20, 'clip-below': 50, 'clip-zero-tree': 5, 'hook:tree_mean': 2, 'class:many-trees': 15, 'class:int32-weights-total-above-2^31': 8,
         'hook:tree_sum': 1, 'hook:tree_clip_by_global_norm': 1,
     },
     'thorough': {
@@ -120,7 +120,7 @@ def build_pool(ctx, size):
 
 MAG_CLASSES = ['unit', 'milli', 'kilo', 'mega', '1e12', 'mixed', 'micro']
 WEIGHT_CLASSES = ['floats', 'ints', 'all-zero', 'single-nonzero', 'some-zero', 'equal', 'tiny', 'huge']
-WEIGHT_TYPES = ['float', 'int', 'np.float32', 'jax', 'np0d']   # np0d: a (mutable) 0-d np.ndarray, e.g. np.asarray(n)
+WEIGHT_TYPES = ['float', 'int', 'np.float32', 'jax', 'np0d', 'jax-int32', 'np-int32']   # np0d: a (mutable) 0-d np.ndarray, e.g. np.asarray(n)
 LEAF_KINDS = ['jax', 'np', 'mixed']
 
 
@@ -169,7 +169,10 @@ def make_weights(rng, n, wclass, wtype):
     w[rng.rand(n) < 0.5] = 0.0
   else:
     w = np.full(n, float(rng.choice([1.0, 3.0, 0.25, 7.5])))
-  if wtype == 'int':
+  if wtype in ('jax-int32', 'np-int32') and wclass == 'huge':
+    # int32 example / token counts whose TOTAL exceeds 2**31 - 1 although every single one fits
+    w = rng.uniform(8e8, 2.1e9, size=n)
+  if wtype in ('int', 'jax-int32', 'np-int32'):
     w = np.round(w)
     if wclass == 'tiny':
       w = np.exp(rng.uniform(np.log(1e-9), np.log(6e-8), size=n))   # 'int' weights cannot be tiny: keep floats
@@ -189,6 +192,10 @@ def typed_weight(jnp, w, wtype):
     return np.float32(w)
   if wtype == 'np0d':
     return np.array(w, dtype=np.float64)
+  if wtype == 'jax-int32':
+    return jnp.asarray(int(w), dtype=jnp.int32) if float(w) == int(w) else jnp.asarray(w, dtype=jnp.float32)
+  if wtype == 'np-int32':
+    return np.int32(int(w)) if float(w) == int(w) else np.float32(w)
   return jnp.asarray(w, dtype=jnp.float32)
 
 
@@ -366,8 +373,10 @@ def mean_case(ctx, mods, pool, rng):
   wclass = WEIGHT_CLASSES[rng.randint(len(WEIGHT_CLASSES))]
   wtype = WEIGHT_TYPES[rng.randint(len(WEIGHT_TYPES))]
   kind = LEAF_KINDS[rng.randint(len(LEAF_KINDS))]
-  if wclass == 'tiny' and wtype == 'int':
+  if wclass == 'tiny' and wtype in ('int', 'jax-int32', 'np-int32'):
     wtype = 'float'   # an int cannot hold a tiny positive weight
+  if wtype in ('jax-int32', 'np-int32') and wclass == 'huge' and n >= 2:
+    ctx.count('class:int32-weights-total-above-2^31')
   values = make_values(rng, template, n, mag)
   weights = make_weights(rng, n, wclass, wtype)
   wit = {'structure': describe(template), 'n_clients': n, 'magnitude': mag, 'weight_class': wclass,
